@@ -913,6 +913,7 @@ def _opaque(name, *xs):
 
 
 _UF_FLOAT = {
+    "opq_trunc": lambda x: float(math.trunc(x)),
     "exp": math.exp, "log": math.log, "exp10": lambda x: 10.0**x, "log10": math.log10, "pow": lambda x, y: x**y,
 }
 
@@ -948,6 +949,38 @@ def uf_apply(fam, args, guard=None):
             else:
                 C.fact(r >= rv(lo), r <= rv(hi))
     return r
+
+
+def sv_trunc(a):
+    """int(x) / trunc(x) of a symbolic real: an Ackermannised application constrained to lie within one unit
+    of x towards zero (integrality itself is not encoded -- a sound over-approximation: every behaviour of
+    the real truncation is a behaviour of the abstraction)."""
+    a = SV.of(a)
+    if a.t is None:
+        return SV(c=Fr(math.trunc(a.c)), isint=True)
+    x = a.term()
+    r = uf_apply("opq_trunc", [x])
+    ctx().fact(z3.If(x >= 0, z3.And(r >= 0, r <= x, x < r + 1), z3.And(r <= 0, r >= x, x > r - 1)))
+    return SV(t=r)
+
+
+class _SymIntMeta(type):
+    def __instancecheck__(cls, x):
+        return isinstance(x, int)
+
+    def __subclasscheck__(cls, c):
+        return issubclass(c, int)
+
+    def __call__(cls, x=0, *a):
+        if isinstance(x, SV) and x.t is not None:
+            return sv_trunc(x)
+        if isinstance(x, SV):
+            return int(x)
+        return int(x, *a)
+
+
+class sym_int(metaclass=_SymIntMeta):
+    """drop-in for the builtin `int` inside a loaded module namespace: int(symbolic) stays symbolic"""
 
 
 def _seed_family(fam):
